@@ -181,6 +181,19 @@ def immut(data):
             except Exception:
                 dr = True
             res.append([n, sr, dr])
+        # re-running the initialiser on an existing argument (another conclusion, no premises) must not change it
+        from pytableaux.lang import Atomic
+        other = Atomic(4, 3)
+        for how in ('method', 'class'):
+            try:
+                if how == 'method':
+                    arg.__init__(other, ())
+                else:
+                    Argument.__init__(arg, other, (), title='x')
+                sr = False
+            except Exception:
+                sr = True
+            res.append([f'__init__ again ({how})', sr or [tree(s) for s in arg] == [a['c'], *a['p']], True])
         ok = guard(lambda: [hash(arg) == h0, copy.copy(arg) == arg, copy.deepcopy(arg) == arg,
                             pickle.loads(pickle.dumps(arg)) == arg,
                             [tree(s) for s in arg] == [a['c'], *a['p']]])
